@@ -571,6 +571,50 @@ pub fn gen_prog(s: &mut Src, cfg: &GenCfg) -> Prog {
     normalize_prog(g.prog)
 }
 
+/// One more well-typed statement for procedure `p` of an existing program.
+pub fn gen_stmt(s: &mut Src, prog: &Prog, p: usize, cfg: &GenCfg) -> Stmt {
+    let mut g = Gen { s, prog: prog.clone(), used_global: Vec::new(), cfg: cfg.clone(), budget: cfg.budget.min(40) };
+    let depth = g.cfg.max_depth.saturating_sub(2);
+    normalize_stmt(g.stmt(p, depth))
+}
+
+/// One more declaration (a type or a procedure with a small body), appended to the vectors; the
+/// caller decides where it goes in `order`. Type declarations only use `int` so that they may
+/// be placed anywhere.
+pub fn gen_decl(s: &mut Src, prog: &mut Prog, cfg: &GenCfg) -> Decl {
+    let used: Vec<String> = prog.types.iter().map(|t| t.name.clone()).chain(prog.procs.iter().map(|p| p.name.clone())).collect();
+    let mut g = Gen { s, prog: std::mem::take(prog), used_global: used, cfg: cfg.clone(), budget: 30 };
+    let d = if g.s.chance(1, 2) {
+        let name = g.global_name("T");
+        let (expr, ty) = if g.s.chance(1, 2) {
+            (TExpr::Named("int".into()), Ty::Int)
+        } else {
+            let n = 1 + g.s.below(9) as u32;
+            (
+                TExpr::Array(Lit::Dec(n, n.to_string()), Box::new(TExpr::Named("int".into()))),
+                Ty::Arr { size: n, base: Box::new(Ty::Int), creator: name.clone() },
+            )
+        };
+        g.used_global.push(name.clone());
+        g.prog.types.push(TypeDecl { name, expr, ty });
+        Decl::Type(g.prog.types.len() - 1)
+    } else {
+        // gen_proc_sig appends to `order`; undo that, the caller places it
+        let types_before = g.prog.types.clone();
+        // parameters and locals of the new procedure use `int` only, so it can stand anywhere
+        g.prog.types.clear();
+        let j = g.gen_proc_sig(false);
+        g.prog.types = types_before;
+        g.prog.order.pop();
+        let ns = g.s.below(3);
+        let body = (0..ns).map(|_| g.stmt(j, g.cfg.max_depth.saturating_sub(1))).collect::<Vec<_>>();
+        g.prog.procs[j].body = body.into_iter().map(normalize_stmt).collect();
+        Decl::Proc(j)
+    };
+    *prog = g.prog;
+    d
+}
+
 pub fn prec(op: &str) -> u8 {
     match op {
         "*" | "/" => 3,
